@@ -85,6 +85,28 @@ def gen_configs(ctx, quick):
         for (a, b, c2, d) in ([(1, 4, 1, 4), (1, 3, 1, 4), (1, 4, 1, 2), (3, 4, 1, 2), (1, 1, 2, 4)] if not quick
                               else [(1, 4, 1, 4), (1, 3, 1, 4), (rng.choice([1, 2]), 4, 1, 2)]):
             extra.append(dict(base, server_key=key, tl_min=a, tl_max=b, ossl_min=c2, ossl_max=d))
+    # version WINDOWS that differ between the two sides x key-exchange family, so that the negotiated
+    # version lies below one side's maximum (the normal interop case): tlslite [1.0..1.2] / [1.0..1.3] x
+    # OpenSSL pinned to each single version and each sub-range
+    fams = [('rsa', 'rsa', 'kRSA:!PSK:!SRP'), ('dhe_rsa', 'rsa', 'kDHE+aRSA'), ('ecdhe_rsa', 'rsa', 'kECDHE+aRSA'),
+            ('ecdhe_ecdsa', 'ecdsa', 'kECDHE+aECDSA'), ('dhe_dsa', 'dsa', 'kDHE+aDSS'), (None, 'rsa', None)]
+    owins = [(1, 1), (2, 2), (3, 3), (4, 4), (1, 2), (2, 3), (1, 3), (2, 4), (3, 4)]
+    windows = []
+    for tmax in (3, 4):
+        for (olo, ohi) in owins:
+            for kx, key, ostr in fams:
+                c = dict(base, server_key=key, tl_min=1, tl_max=tmax, ossl_min=olo, ossl_max=ohi)
+                if kx is not None:
+                    c['tl_keyExchangeNames'] = [kx]
+                    c['ossl_ciphers'] = ostr + ':@SECLEVEL=0'
+                    c['family'] = kx
+                windows.append(c)
+    if quick:
+        must = [c for c in windows if c.get('family') == 'rsa']          # RSA key transport: every window
+        rest = [c for c in windows if c.get('family') != 'rsa']
+        rng.shuffle(rest)
+        windows = must + rest[:30]
+    extra += windows
     # groups
     for g, on in (('secp256r1', 'prime256v1'), ('secp384r1', 'secp384r1'), ('secp521r1', 'secp521r1'), ('x25519', 'X25519'), ('x448', 'X448')):
         for mx in (4, 3):
@@ -245,6 +267,7 @@ def run(ctx):
         for e in errs:
             tie_broken = 'spec evaluation failed: ' + e[-300:]
         disagreements = len(bad)
+        seen_spec = {}
         for i in bad:
             r = rows[i]
             cfg, obs = r['cfg'], r['obs']
@@ -254,12 +277,16 @@ def run(ctx):
                 'failed' if not obs['completed'] else 'completed with version %s suite %#x ALPN %r' % (
                     obs.get('tl_version'), obs.get('tl_suite') or 0, obs.get('tl_alpn')),
                 obs.get('tl_outcome'), obs.get('ossl_outcome')))
-            ctx.violation('spec-disagrees:%s:%s:%s' % (cfg['role'], cfg['server_key'], 'failed' if not obs['completed'] else 'choice'),
-                          what, {'cfg': cfg, 'observed': obs, 'how': './check C07 --replay <this file>'})
+            vkey = 'spec-disagrees:%s:%s:%s' % (cfg['role'], cfg['server_key'], 'failed' if not obs['completed'] else 'choice')
+            seen_spec[vkey] = seen_spec.get(vkey, 0) + 1
+            if seen_spec[vkey] > 1:
+                continue                              # one replay file per failure class; the count goes to the evidence
+            ctx.violation(vkey, what, {'cfg': cfg, 'observed': obs, 'how': './check C07 --replay <this file>'})
     elif not res['model_ok']:
         tie_broken = tie_broken or 'spec does not compile: %s' % res['failing']
     ctx.cov['disagreements_checked'] = len(lits)
     ctx.cov['disagreements'] = disagreements
+    ctx.cov['spec_disagreements_by_key'] = locals().get('seen_spec', {})
     ctx.cov['rule'] = ('programs = configurations (role x version windows x server key type x single suite x curve x ALPN x '
                        'client auth x resumption); each runs a full handshake against OpenSSL plus 5 payload sizes per direction; '
                        'distinct = (role, completed, version, suite, key, client-auth, ALPN sides, resumption, curve)')
